@@ -52,7 +52,7 @@ class OpenIDProviderMetadata(AuthorizationServerMetadata):
     def validate_jwks_uri(self):
         # REQUIRED in OpenID Connect
         jwks_uri = self.get("jwks_uri")
-        if jwks_uri is None:
+        if not jwks_uri:
             raise ValueError('"jwks_uri" is required')
         return super().validate_jwks_uri()
 
